@@ -1462,6 +1462,98 @@ def sites_star(facts, fn, term_pred, depth=4):
     return out
 
 
+def agg_sites_star(facts, fn, rv_pred, depth=3):
+    """Blocks of fn (cleanup excluded) where an aggregate accepted by rv_pred is built: directly, or inside a closure /
+    crate-local callee handed over or called at that block (`.map_err(|_| ChannelClosed)` builds it where map_err is called)."""
+    memo = {}
+
+    def builds(path, d):
+        if path in memo:
+            return memo[path]
+        memo[path] = False
+        g = facts.fns.get(path)
+        if g is None or d <= 0:
+            return False
+        res = False
+        for blk in g.blocks:
+            if blk["cleanup"]:
+                continue
+            for st in blk["stmts"]:
+                if st["k"] == "assign" and st["rv"]["k"] == "agg":
+                    if rv_pred(st["rv"]) or ("closure" in st["rv"] and builds(st["rv"]["closure"], d - 1)):
+                        res = True
+            t = blk["term"]
+            if t["k"] == "call" and t["callee"] in facts.fns and builds(t["callee"], d - 1):
+                res = True
+        memo[path] = res
+        return res
+    out = []
+    for b, blk in enumerate(fn.blocks):
+        if blk["cleanup"]:
+            continue
+        hit = False
+        for st in blk["stmts"]:
+            if st["k"] == "assign" and st["rv"]["k"] == "agg" and rv_pred(st["rv"]):
+                hit = True
+        t = blk["term"]
+        if not hit and t["k"] == "call":
+            if t["callee"] in facts.fns and builds(t["callee"], depth):
+                hit = True
+            for a in t["args"]:
+                if hit or a["k"] not in ("copy", "move") or a["p"]:
+                    continue
+                cur = a
+                for _ in range(6):
+                    sd = fn.single_def(cur["l"]) if cur and cur["k"] in ("copy", "move") and not cur["p"] else None
+                    if not sd or sd[1] == "term" or sd[2]["k"] != "assign":
+                        break
+                    rv = sd[2]["rv"]
+                    if rv["k"] == "agg" and "closure" in rv:
+                        hit = builds(rv["closure"], depth)
+                        break
+                    cur = rv["op"] if rv["k"] == "use" else None
+        if hit:
+            out.append(b)
+    return out
+
+
+def aggs_reaching(fn, op, adt, limit=200):
+    """Variants of `adt` that are constructed in fn and can reach operand `op` through copies, moves, wrapping
+    aggregates (Some(cmd), (cmd, x)), projections and transparent calls: [(variant, block)]."""
+    out = []
+    seen = set()
+    work = [op]
+    n = 0
+    while work and n < limit:
+        n += 1
+        cur = work.pop()
+        if cur is None or cur.get("k") not in ("copy", "move"):
+            continue
+        l = cur["l"]
+        if l in seen:
+            continue
+        seen.add(l)
+        for (b, i, s) in fn.defs(l):
+            if i == "term":
+                if transparent_args(s["callee"]) is not None or transparent_args(s.get("decl", "")) is not None:
+                    for a in s["args"]:
+                        work.append(a)
+                continue
+            if s["k"] != "assign":
+                continue
+            rv = s["rv"]
+            if rv["k"] == "agg":
+                if rv.get("adt") == adt:
+                    out.append((rv.get("variant"), b))
+                else:
+                    work.extend(rv["ops"])
+            elif rv["k"] in ("use", "cast"):
+                work.append(rv["op"])
+            elif rv["k"] in ("ref", "rawptr"):
+                work.append({"k": "copy", "l": rv["place"]["l"], "p": []})
+    return out
+
+
 def callee_is(t, regex):
     return bool(re.search(regex, t["callee"]) or re.search(regex, t.get("decl", "")))
 
